@@ -2,8 +2,10 @@
 # Model of cproc's type system (`/repo/type.c`, `targ.c`, the typing half of `expr.c`, `decl.c:tagspec`)
 
 A transliteration of the C code as it is in `/repo` now (after the `fix:` commits, in particular
-`d72f7d0` "usual arithmetic conversions for ?: operands of the same type" and `3c7c8ce`
-"integer promotion of an enum operand yields the promoted type").
+`d72f7d0` "usual arithmetic conversions for ?: operands of the same type", `3c7c8ce` "integer
+promotion of an enum operand yields the promoted type", `8619181` "only an unqualified (void *)0
+is a null pointer constant", `6d47956` "usual arithmetic conversions with an enum whose underlying
+type is long or long long").
 
 Conventions
 * The 15 global `struct type` objects of `type.c` are the constructors of `Basic`; an enumerated
@@ -119,6 +121,11 @@ def rank : ATy → Nat
   | basic b => b.kind.rank
   | enum _ b => b.kind.rank
 
+/-- `t->kind == TYPEENUM ? t->base : t` -/
+def stripEnum : ATy → ATy
+  | enum _ b => basic b
+  | t => t
+
 /-- well-formed: the base of an enum is an integer type -/
 def wf : ATy → Bool
   | basic _ => true
@@ -172,17 +179,21 @@ def typecommonreal (sc : Bool) (t1 : ATy) (w1 : Option Nat) (t2 : ATy) (w2 : Opt
     let p1 := typepromote sc t1 w1
     let p2 := typepromote sc t2 w2
     if p1 = p2 then some p1
-    else if p1.issigned sc = p2.issigned sc then
-      some (if p1.rank > p2.rank then p1 else p2)
     else
-      -- make `u` the unsigned and `s` the signed one
-      let u := if p1.issigned sc then p2 else p1
-      let s := if p1.issigned sc then p1 else p2
-      if u.rank ≥ s.rank then some u
-      else if u.size < s.size then some s
-      else if s = tLong then some tULong
-      else if s = tLLong then some tULLong
-      else none
+      -- `if (t1->kind == TYPEENUM) t1 = t1->base;` (same for t2; fix 6d47956)
+      let p1 := p1.stripEnum
+      let p2 := p2.stripEnum
+      if p1.issigned sc = p2.issigned sc then
+        some (if p1.rank > p2.rank then p1 else p2)
+      else
+        -- make `u` the unsigned and `s` the signed one
+        let u := if p1.issigned sc then p2 else p1
+        let s := if p1.issigned sc then p1 else p2
+        if u.rank ≥ s.rank then some u
+        else if u.size < s.size then some s
+        else if s = tLong then some tULong
+        else if s = tLLong then some tULLong
+        else none
 
 /-- `a << n` on `unsigned long long` -/
 def shl64 (a n : Nat) : Nat := (a * 2 ^ n) % 2 ^ 64
@@ -397,8 +408,9 @@ def isInt : Ty → Bool | .arith a => a.isInt | _ => false
 def isScalar : Ty → Bool | .arith _ => true | .ptr _ _ => true | .nullptr => true | _ => false
 def isFunc : Ty → Bool | .func _ _ _ _ => true | _ => false
 def isVoid : Ty → Bool | .void => true | _ => false
-/-- `kind == TYPEPOINTER && base == &typevoid` (whatever the qualifiers), as tested by `nullpointer` -/
-def isVoidPtr : Ty → Bool | .ptr _ .void => true | _ => false
+/-- `kind == TYPEPOINTER && base == &typevoid && qual == QUALNONE`, as tested by `nullpointer`
+(fix 8619181: only the unqualified `void *`) -/
+def isVoidPtr : Ty → Bool | .ptr q .void => q == {} | _ => false
 def isStructUnion : Ty → Bool | .struct _ => true | .union _ => true | _ => false
 def isEnum : Ty → Bool | .arith a => a.isEnum | _ => false
 /-- `t->incomplete` (struct/union types of the model are complete) -/
